@@ -22,6 +22,7 @@ func entryPoints() []Call {
 		{Name: "assignunique", Field: "K", Cmp: "=", Probe: 0}, {Name: "assign", Field: "P", Cmp: ">=", Probe: 0},
 		{Name: "expects", Field: "A", Cmp: ">=", Probe: 2}, {Name: "operation", Field: "P", Cmp: ">=", Probe: 0},
 		{Name: "reverse-limit", Field: "A", Cmp: ">=", Probe: 2},
+		{Name: "limitor", Field: "A", Cmp: ">=", Probe: 2, V: 1}, {Name: "limitor", Field: "A", Cmp: ">=", Probe: 2, V: 2}, {Name: "limitor", Field: "A", Cmp: ">=", Probe: 2, V: 0},
 		{Name: "ins", V: 2, K: 3}, {Name: "upd", Slot: 0, V: 3, K: 0}, {Name: "many", V: 2, K: 3}, {Name: "bulk", V: 2, K: 3},
 		{Name: "del", Slot: 0}, {Name: "delall"}, {Name: "deleteobjects"}, {Name: "sdel", Field: "A", Cmp: ">=", Probe: 2}, {Name: "sdel", Field: "P", Cmp: ">=", Probe: 0},
 		{Name: "commit"}, {Name: "flushall"}, {Name: "flushallc"}, {Name: "flushandcommit", Slot: 0},
@@ -61,6 +62,7 @@ func runC09(c *Ctx) {
 		{Name: "collect", Field: "A", Cmp: ">=", Probe: 2}, {Name: "andor", Field: "L", Cmp: "!=", Probe: 0},
 		{Name: "sdel", Field: "P", Cmp: ">=", Probe: 0}, {Name: "delall"}, {Name: "deleteobjects"},
 		{Name: "control"}, {Name: "repair"}, {Name: "close"},
+		{Name: "limitor", Field: "A", Cmp: ">=", Probe: 2, V: 5}, {Name: "limitor", Field: "A", Cmp: ">=", Probe: 2, V: 64},
 	}
 	bigSizes := []int{70}
 	if c.Tier == "thorough" {
